@@ -104,53 +104,56 @@ Record layer := mkLayer {
   l_docw : Z; l_doch : Z;     (* size of the attached document (FillLayer.right / bottom fall back to it) *)
   l_box : box;                (* ShapeLayer / Artboard: their computed bbox; Group: bbox of its visible content *)
   l_ancvis : bool;            (* parent is not None and parent.is_visible() *)
-  l_pixels : Z                (* opaque digest of the channel data *)
+  l_pixels : Z;               (* opaque digest of the channel data *)
+  l_lsdk : option sdiv        (* data of the 'lsdk' block (nested section divider: deeply nested groups) *)
 }.
 
 (* record updates *)
 Definition with_name (s : layer) (rn : list Z) (u : option (list Z)) : layer :=
   mkLayer (l_kind s) (l_attached s) rn u (l_tp s) (l_vis s) (l_fbits s) (l_opacity s) (l_rblend s)
     (l_clip s) (l_left s) (l_top s) (l_right s) (l_bottom s) (l_lsct s) (l_lspf s) (l_iopa s)
-    (l_docw s) (l_doch s) (l_box s) (l_ancvis s) (l_pixels s).
+    (l_docw s) (l_doch s) (l_box s) (l_ancvis s) (l_pixels s) (l_lsdk s).
 Definition with_vis (s : layer) (v : bool) : layer :=
   mkLayer (l_kind s) (l_attached s) (l_rname s) (l_luni s) (l_tp s) v (l_fbits s) (l_opacity s) (l_rblend s)
     (l_clip s) (l_left s) (l_top s) (l_right s) (l_bottom s) (l_lsct s) (l_lspf s) (l_iopa s)
-    (l_docw s) (l_doch s) (l_box s) (l_ancvis s) (l_pixels s).
+    (l_docw s) (l_doch s) (l_box s) (l_ancvis s) (l_pixels s) (l_lsdk s).
 Definition with_opacity (s : layer) (v : Z) : layer :=
   mkLayer (l_kind s) (l_attached s) (l_rname s) (l_luni s) (l_tp s) (l_vis s) (l_fbits s) v (l_rblend s)
     (l_clip s) (l_left s) (l_top s) (l_right s) (l_bottom s) (l_lsct s) (l_lspf s) (l_iopa s)
-    (l_docw s) (l_doch s) (l_box s) (l_ancvis s) (l_pixels s).
-Definition with_blend (s : layer) (rb : Z) (d : option sdiv) : layer :=
+    (l_docw s) (l_doch s) (l_box s) (l_ancvis s) (l_pixels s) (l_lsdk s).
+Definition with_blend (s : layer) (rb : Z) (d k : option sdiv) : layer :=
   mkLayer (l_kind s) (l_attached s) (l_rname s) (l_luni s) (l_tp s) (l_vis s) (l_fbits s) (l_opacity s) rb
     (l_clip s) (l_left s) (l_top s) (l_right s) (l_bottom s) d (l_lspf s) (l_iopa s)
-    (l_docw s) (l_doch s) (l_box s) (l_ancvis s) (l_pixels s).
+    (l_docw s) (l_doch s) (l_box s) (l_ancvis s) (l_pixels s) k.
 Definition with_clip (s : layer) (v : bool) : layer :=
   mkLayer (l_kind s) (l_attached s) (l_rname s) (l_luni s) (l_tp s) (l_vis s) (l_fbits s) (l_opacity s) (l_rblend s)
     v (l_left s) (l_top s) (l_right s) (l_bottom s) (l_lsct s) (l_lspf s) (l_iopa s)
-    (l_docw s) (l_doch s) (l_box s) (l_ancvis s) (l_pixels s).
+    (l_docw s) (l_doch s) (l_box s) (l_ancvis s) (l_pixels s) (l_lsdk s).
 Definition with_lr (s : layer) (l r : Z) : layer :=
   mkLayer (l_kind s) (l_attached s) (l_rname s) (l_luni s) (l_tp s) (l_vis s) (l_fbits s) (l_opacity s) (l_rblend s)
     (l_clip s) l (l_top s) r (l_bottom s) (l_lsct s) (l_lspf s) (l_iopa s)
-    (l_docw s) (l_doch s) (l_box s) (l_ancvis s) (l_pixels s).
+    (l_docw s) (l_doch s) (l_box s) (l_ancvis s) (l_pixels s) (l_lsdk s).
 Definition with_tb (s : layer) (t b : Z) : layer :=
   mkLayer (l_kind s) (l_attached s) (l_rname s) (l_luni s) (l_tp s) (l_vis s) (l_fbits s) (l_opacity s) (l_rblend s)
     (l_clip s) (l_left s) t (l_right s) b (l_lsct s) (l_lspf s) (l_iopa s)
-    (l_docw s) (l_doch s) (l_box s) (l_ancvis s) (l_pixels s).
+    (l_docw s) (l_doch s) (l_box s) (l_ancvis s) (l_pixels s) (l_lsdk s).
 Definition with_lspf (s : layer) (p : option Z) : layer :=
   mkLayer (l_kind s) (l_attached s) (l_rname s) (l_luni s) (l_tp s) (l_vis s) (l_fbits s) (l_opacity s) (l_rblend s)
     (l_clip s) (l_left s) (l_top s) (l_right s) (l_bottom s) (l_lsct s) p (l_iopa s)
-    (l_docw s) (l_doch s) (l_box s) (l_ancvis s) (l_pixels s).
+    (l_docw s) (l_doch s) (l_box s) (l_ancvis s) (l_pixels s) (l_lsdk s).
 
 (* ------------------------------------------------------------------ which code is modelled *)
 Record cfg := mkCfg {
   fix_group : bool;   (* c16_group_blend_mode.diff applied *)
   fix_lock : bool;    (* c16_lock_without_block.diff applied *)
   fix_clip : bool;    (* c16_clipping_detached.diff applied *)
+  fix_lsdk : bool;    (* c16_group_setting_lsdk.diff applied: Group._setting takes the divider from 'lsdk' when
+                         present, else from 'lsct' (as PSDImage._init does); before: 'lsct' only *)
   fix_ctor : bool     (* /repo commit cc4d99c: Group.new / PixelLayer.frompil put _legacy_name(name) (the name, or "?"
                          when mac_roman cannot encode it) into the record and frompil also stores a 'luni' block *)
 }.
-Definition orig_cfg : cfg := mkCfg false false false false.
-Definition fixed_cfg : cfg := mkCfg true true true true.
+Definition orig_cfg : cfg := mkCfg false false false false false.
+Definition fixed_cfg : cfg := mkCfg true true true true true.
 
 (* ------------------------------------------------------------------ getters *)
 (* Layer.name: tagged_blocks.get_data(UNICODE_LAYER_NAME, record.name) *)
@@ -160,10 +163,14 @@ Definition get_name (s : layer) : list Z :=
 Definition get_visible (s : layer) : bool := l_vis s.
 Definition get_opacity (s : layer) : Z := l_opacity s.
 
+(* Group._setting: the divider the group's blend mode getter and setter work on *)
+Definition setting (c : cfg) (s : layer) : option sdiv :=
+  if fix_lsdk c then match l_lsdk s with Some k => Some k | None => l_lsct s end else l_lsct s.
+
 (* Layer.blend_mode / Group.blend_mode (None when the divider carries no blend mode) *)
-Definition get_blend (s : layer) : option Z :=
+Definition get_blend (c : cfg) (s : layer) : option Z :=
   if is_group (l_kind s) then
-    match l_lsct s with
+    match setting c s with
     | Some d => sd_blend d
     | None => Some (l_rblend s)
     end
@@ -207,16 +214,20 @@ Definition set_opacity (v : Z) (s : layer) : ares layer :=
   if (0 <=? v) && (v <=? 255) then AOk (with_opacity s v) else AErr EAssert.
 
 (* Layer.blend_mode.setter / Group.blend_mode.setter *)
+Definition upd_div (c : cfg) (v : Z) (d : sdiv) : sdiv :=
+  mkSdiv (sd_kind d) (if fix_group c then true else sd_sig d) (Some v) (sd_sub d).
+
 Definition set_blend (c : cfg) (v : Z) (s : layer) : ares layer :=
   if negb (valid_blend v) then AErr EValue
   else if is_group (l_kind s) then
     let rb := if v =? bm_pass then bm_norm else v in
-    let d := match l_lsct s with
-             | Some d => Some (mkSdiv (sd_kind d) (if fix_group c then true else sd_sig d) (Some v) (sd_sub d))
-             | None => None
-             end in
-    AOk (with_blend s rb d)
-  else AOk (with_blend s v (l_lsct s)).
+    if fix_lsdk c then
+      match l_lsdk s with
+      | Some k => AOk (with_blend s rb (l_lsct s) (Some (upd_div c v k)))
+      | None => AOk (with_blend s rb (option_map (upd_div c v) (l_lsct s)) None)
+      end
+    else AOk (with_blend s rb (option_map (upd_div c v) (l_lsct s)) (l_lsdk s))
+  else AOk (with_blend s v (l_lsct s) (l_lsdk s)).
 
 (* left.setter: w = self.width; record.left = v; record.right = v + w.
    Group has a getter-only property (GroupMixin.left); ShapeLayer / Artboard raise. *)
@@ -271,12 +282,12 @@ Definition attr_eqb (a b : attr) : bool := attr_code a =? attr_code b.
 
 Definition opt_val (o : option Z) : val := match o with Some z => VInt z | None => VNone end.
 
-Definition get (a : attr) (s : layer) : val :=
+Definition get (c : cfg) (a : attr) (s : layer) : val :=
   match a with
   | AName => VStr (get_name s)
   | AVisible => VBool (get_visible s)
   | AOpacity => VInt (get_opacity s)
-  | ABlend => opt_val (get_blend s)
+  | ABlend => opt_val (get_blend c s)
   | ALeft => VInt (get_left s)
   | ATop => VInt (get_top s)
   | AClip => VBool (get_clip s)
@@ -340,7 +351,7 @@ Definition stored (s : layer) : layer :=
   mkLayer (l_kind s) true (l_rname s) (option_map utf16_rt (l_luni s)) (l_tp s) (l_vis s)
     (l_fbits s) (l_opacity s) (l_rblend s) (l_clip s) (l_left s) (l_top s) (l_right s)
     (l_bottom s) (option_map sdiv_rt (l_lsct s)) (l_lspf s) (l_iopa s)
-    (l_docw s) (l_doch s) (l_box s) (l_ancvis s) (l_pixels s).
+    (l_docw s) (l_doch s) (l_box s) (l_ancvis s) (l_pixels s) (option_map sdiv_rt (l_lsdk s)).
 
 Definition reopen (s : layer) : ares layer :=
   if negb (storable s) then AErr EStruct
@@ -352,7 +363,7 @@ Definition reopen (s : layer) : ares layer :=
 Definition attach (docw doch : Z) (ancvis : bool) (s : layer) : layer :=
   mkLayer (l_kind s) true (l_rname s) (l_luni s) (l_tp s) (l_vis s)
     (l_fbits s) (l_opacity s) (l_rblend s) (l_clip s) (l_left s) (l_top s) (l_right s)
-    (l_bottom s) (l_lsct s) (l_lspf s) (l_iopa s) docw doch (l_box s) ancvis (l_pixels s).
+    (l_bottom s) (l_lsct s) (l_lspf s) (l_iopa s) docw doch (l_box s) ancvis (l_pixels s) (l_lsdk s).
 
 (* ------------------------------------------------------------------ constructors of the API *)
 (* _legacy_name(value) *)
@@ -366,7 +377,7 @@ Definition new_group (c : cfg) (name : list Z) (open_folder : bool) (pix : Z) : 
     (Some (if fix_group c
            then mkSdiv (if open_folder then 1 else 2) true (Some bm_pass) None
            else mkSdiv (if open_folder then 1 else 2) false None None))
-    None None 0 0 box0 false pix.
+    None None 0 0 box0 false pix None.
 
 (* PixelLayer.frompil(image, psd, name, top, left) of a w x h image: no tagged blocks at all in the original
    code; since cc4d99c a 'luni' block with the name.  (Both constructors now assert len(name) < 256; the
@@ -374,7 +385,7 @@ Definition new_group (c : cfg) (name : list Z) (open_folder : bool) (pix : Z) : 
 Definition new_pixel (c : cfg) (attached : bool) (name : list Z) (top left w h docw doch pix : Z) : layer :=
   mkLayer KPixel attached (if fix_ctor c then legacy_name name else name) (if fix_ctor c then Some name else None)
     false true 8 255 bm_norm false left top (left + w) (top + h)
-    None None None docw doch box0 false pix.
+    None None None docw doch box0 false pix None.
 
 (* ------------------------------------------------------------------ histories *)
 Inductive op :=
